@@ -123,6 +123,13 @@ class PbnParser(Parser):
         :param fp: Input stream in a PBN style.
         :return: Dict of a board content (yield).
         """
+        # A parser object may read several streams.
+        # Nothing of a stream parsed before is kept.
+        self._in_comment = False
+        self.tag_pair_buffer = list()
+        self.comment_list = list()
+        self.comment_buffer = list()
+
         # line is maximally 255 characters in protocol PBN ver2.1
         for line in fp:
             # Check a semi-empty line, which is the first line of a new
